@@ -185,7 +185,7 @@ STACK_RULE = ("executions of the real stack code under the deterministic schedul
 def _stack_check(c, hprop, prop_files, lemma_files, what):
     generic(
         c, hprop, prop_files, lemma_files,
-        what_tie="trace of fs operations / results / snapshots of the Go stack code under the scheduler, judged by the extracted trace predicate of the property (Model/StackTrace.v)",
+        what_tie="trace of fs operations / results / snapshots of the Go stack code under the scheduler = trace of the protocol model (Model/StackProto.v: every scripted operation incl. multi-table Addition, partial-range compaction and Clean) on the observed schedule, event for event; and judged by the extracted trace predicate of the property (Model/StackTrace.v)",
         rule=STACK_RULE + ". " + what,
         nontrivial=lambda cmd, args, impl: ("sw=" in args and "sw= " not in args) or ("crash=" in args and "crash= " not in args) or ("explicit=" in args and not args.endswith("explicit=")),
         assumptions=["POSIX semantics of O_EXCL create, rename, unlink-with-open-descriptor are the kernel's (real directory); power loss / fsync are outside the property",
